@@ -1,7 +1,7 @@
 """C19 - template extrapolation gives every level of every hierarchy one well-named type"""
 from ..rules import extrapolate, config, memo
 
-DECIDES = ("generated name = basetype + separator + key (R-NAME); explicit entries copied first and unconditionally, generation only for listed types, prefixes walked longest first; both 'already owned' tests dominate the insertion and range over configured and already generated entries (R-OWN, R-KEEP); pattern replacement happens only under the selector test evaluated against each type's own name and writes back templates[type] (R-SEL); on the shipped configuration the documented extrapolation yields no duplicate name / template and keeps the explicit order (R-EXTRAREF), and every prefix has an owner (R-PREFIX); the two functions keep nothing between calls (R-NOSTATE on spil.conf.util).")
+DECIDES = ("generated name = basetype + separator + key (R-NAME); explicit entries copied first and unconditionally, generation only for listed types, prefixes walked longest first; both 'already owned' tests dominate the insertion and range over configured and already generated entries (R-OWN, R-KEEP); pattern replacement happens only under the selector test evaluated against each type's own name and writes back templates[type] (R-SEL); on the shipped configuration the documented extrapolation yields no duplicate name / template and keeps the explicit order (R-EXTRAREF), and every prefix has an owner (R-PREFIX); the two functions keep nothing between calls (R-NOSTATE on spil.conf.util). sid_conf_load runs extrapolate_templates, then pattern_replacing, then builds the Resolver (R-FIRST).")
 DOES_NOT_DECIDE = 'the result for arbitrary grammars beyond these structural conditions'
 
 
@@ -12,4 +12,5 @@ def rules(ctx, tier):
         lambda: extrapolate.rule_extraref(ctx),
         lambda: config.rule_prefix(ctx),
         lambda: memo.rule_nostate(ctx, 'conf'),
+        lambda: config.rule_first(ctx),
     ]
